@@ -1,4 +1,6 @@
+import Std.Data.HashSet
 import IwModel.Model.KvApi
+import IwModel.Model.FormatEnc
 /-! An independent reader of the iwkv file format (src/kv/data-format.txt, iwkv_internal.h,
 iwfsmfile.c header) and the well-formedness audit of property C06.
 
@@ -10,58 +12,29 @@ lowest-key prefix), slot geometry inside data blocks, and the allocation ledger:
 marked in the free-space bitmap equals exactly the blocks occupied by header, bitmap, database
 blocks, metadata blocks, node pages in use and data blocks. -/
 namespace IwModel.Format
-open IwModel
+open IwModel IwModel.FormatEnc
 
-abbrev Img := ByteArray
+abbrev Img := FormatEnc.Mem
 
-def byteAt (m : Img) (i : Nat) : Nat := if h : i < m.size then (m[i]'h).toNat else 0
+/-- the image of a real file -/
+def imgOf (a : ByteArray) : Img := ⟨a.size, fun i => if h : i < a.size then (a[i]'h).toNat else 0⟩
 
-def leAt (m : Img) (off width : Nat) : Nat :=
-  (List.range width).foldr (fun i acc => byteAt m (off + i) + 256 * acc) 0
+def byteAt (m : Img) (i : Nat) : Nat := m.get i
 
-def slice (m : Img) (off len : Nat) : Bytes := (List.range len).map fun i => byteAt m (off + i)
+def slice (m : Img) (off len : Nat) : Bytes := m.slice off len
+
+def leAt (m : Img) (off width : Nat) : Nat := leDec (slice m off width)
 
 def inFile (m : Img) (off len : Nat) : Bool := off + len ≤ m.size
 
-/-- variable-length number at `off`: (value, bytes consumed) -/
-def vnumAt (m : Img) (off : Nat) : Option (Nat × Nat) := Vnum.dec (slice m off 10)
-
-structure FsmHdr where
-  bpow : Nat
-  bmoff : Nat
-  bmlen : Nat
-  hdrlen : Nat
-deriving Repr
-
-structure Sblk where
+/-- a node: its record, the header and index of its data block, and the records it holds -/
+structure Sblk extends SblkRec, KvIndex where
   blk : Nat              -- block number of the node record
-  flags : Nat
-  lvl : Nat
-  lkl : Nat
-  pnum : Nat
-  p0 : Nat
-  kblk : Nat
-  pi : List Nat          -- first `pnum` slot numbers
-  n : List Nat           -- next links, levels 0..lvl
-  bpos : Nat
-  lk : Bytes
-  -- data block
-  szpow : Nat
-  idxsz : Nat
-  slots : List (Nat × Nat)             -- 32 (off, len) pairs
   recs : List (Bytes × Bytes)          -- (stored key, value) in `pi` order
 deriving Repr
 
-structure DbImg where
+structure DbImg extends DbHdr where
   blk : Nat
-  flags : Nat
-  id : Nat
-  next : Nat
-  p0 : Nat
-  n : List Nat           -- 24 head links
-  c : List Nat           -- 24 per-level counters
-  metaBlk : Nat
-  metaBlkn : Nat
   nodes : List Sblk      -- level-0 chain
 deriving Repr
 
@@ -81,77 +54,76 @@ def fsmHdrSize : Nat := Gen.IWFSM_CUSTOM_HDR_DATA_OFFSET
 
 def parseFsm (m : Img) : Except String FsmHdr :=
   if !inFile m 0 fsmHdrSize then .error "file shorter than the allocator header"
-  else if leAt m 0 4 ≠ fsmMagic then .error "bad allocator magic"
-  else .ok { bpow := byteAt m 4, bmoff := leAt m 5 8, bmlen := leAt m 13 8, hdrlen := leAt m 73 4 }
+  else match decFsmHdr (slice m 0 fsmHdrSize) with
+    | some h => .ok h
+    | none => .error "bad allocator magic"
 
 /-- one key/value pair of a data block: `[klen:vn, key, value]`, `len` bytes long -/
 def parseKv (m : Img) (at_ len : Nat) : Except String (Bytes × Bytes) :=
-  match vnumAt m at_ with
-  | none => .error "unterminated key length"
-  | some (klen, st) =>
-    if st + klen > len then .error s!"key of {klen} bytes does not fit its {len}-byte slot"
-    else .ok (slice m (at_ + st) klen, slice m (at_ + st + klen) (len - st - klen))
+  match decKvE (slice m at_ (max len Gen.IW_VNUMBUFSZ)) len with
+  | .ok r => .ok r
+  | .error .unterminated => .error "unterminated key length"
+  | .error (.nofit klen) => .error s!"key of {klen} bytes does not fit its {len}-byte slot"
 
-/-- the 32 (offset, length) index pairs of a data block starting at `pos` -/
-def parseIdx (m : Img) : Nat → Nat → List (Nat × Nat) → Except String (List (Nat × Nat) × Nat)
-  | 0, pos, acc => .ok (acc.reverse, pos)
-  | k + 1, pos, acc =>
-    match vnumAt m pos with
-    | none => .error "bad slot offset"
-    | some (off, s1) =>
-      match vnumAt m (pos + s1) with
-      | none => .error "bad slot length"
-      | some (len, s2) => parseIdx m k (pos + s1 + s2) ((off, len) :: acc)
+/-- records of a node in `pi` order -/
+def parseRecs (m : Img) (blk ka : Nat) (ki : KvIndex) (pi : List Nat) : Except String (List (Bytes × Bytes)) :=
+  pi.mapM fun s =>
+    match ki.slots[s]? with
+    | none => throw s!"node {blk}: slot number {s}"
+    | some (off, len) =>
+      if len = 0 ∨ off = 0 ∨ off > 2 ^ ki.szpow then throw s!"node {blk}: slot {s} is empty or outside (off {off} len {len})"
+      else parseKv m (ka + 2 ^ ki.szpow - off) len
 
-def parseSblk (m : Img) (blk : Nat) : Except String Sblk := do
+/-- why `decSblk` rejected a node record -/
+def sblkErr (m : Img) (blk : Nat) : String :=
   let a := blk * bs
-  if !inFile m a Gen.SBLK_SZ then throw s!"node record {blk} outside the file"
   let lvl := byteAt m (a + Gen.SOFF_LVL_U1)
   let lkl := byteAt m (a + Gen.SOFF_LKL_U1)
   let pnum := byteAt m (a + Gen.SOFF_PNUM_U1)
-  if lvl ≥ Gen.SLEVELS then throw s!"node {blk}: level {lvl}"
-  if lkl > Gen.PREFIX_KEY_LEN_V2 then throw s!"node {blk}: lkl {lkl}"
-  if pnum > Gen.KVBLK_IDXNUM then throw s!"node {blk}: pnum {pnum}"
-  let kblk := leAt m (a + Gen.SOFF_KBLK_U4) 4
-  let ka := kblk * bs
-  if !inFile m ka Gen.KVBLK_HDRSZ then throw s!"node {blk}: data block {kblk} outside the file"
-  let szpow := byteAt m ka
-  let idxsz := leAt m (ka + 1) 2
-  if szpow > 40 ∨ !inFile m ka (2 ^ szpow) then throw s!"node {blk}: data block of 2^{szpow} bytes outside the file"
-  let (slots, endPos) ← parseIdx m Gen.KVBLK_IDXNUM (ka + Gen.KVBLK_HDRSZ) []
-  if endPos - (ka + Gen.KVBLK_HDRSZ) ≠ idxsz then throw s!"node {blk}: index size field {idxsz} but index occupies {endPos - (ka + Gen.KVBLK_HDRSZ)}"
-  let pi := slice m (a + Gen.SOFF_PI0_U1) pnum
-  let recs ← pi.mapM fun s =>
-    match slots[s]? with
-    | none => throw s!"node {blk}: slot number {s}"
-    | some (off, len) =>
-      if len = 0 ∨ off = 0 ∨ off > 2 ^ szpow then throw s!"node {blk}: slot {s} is empty or outside (off {off} len {len})"
-      else parseKv m (ka + 2 ^ szpow - off) len
-  return { blk, flags := byteAt m (a + Gen.SOFF_FLAGS_U1), lvl, lkl, pnum, p0 := leAt m (a + Gen.SOFF_P0_U4) 4, kblk, pi,
-           n := (List.range (lvl + 1)).map fun i => leAt m (a + Gen.SOFF_N0_U4 + 4 * i) 4,
-           bpos := byteAt m (a + Gen.SOFF_BPOS_U1_V2), lk := slice m (a + Gen.SOFF_LK_V2) lkl,
-           szpow, idxsz, slots, recs }
+  if lvl ≥ Gen.SLEVELS then s!"node {blk}: level {lvl}"
+  else if lkl > Gen.PREFIX_KEY_LEN_V2 then s!"node {blk}: lkl {lkl}"
+  else s!"node {blk}: pnum {pnum}"
+
+def parseSblk (m : Img) (blk : Nat) : Except String Sblk :=
+  let a := blk * bs
+  if !inFile m a Gen.SBLK_SZ then .error s!"node record {blk} outside the file" else
+  match decSblk (slice m a Gen.SBLK_SZ) with
+  | none => .error (sblkErr m blk)
+  | some r =>
+    let ka := r.kblk * bs
+    if !inFile m ka Gen.KVBLK_HDRSZ then .error s!"node {blk}: data block {r.kblk} outside the file" else
+    let szpow := byteAt m ka
+    if szpow > 40 ∨ !inFile m ka (2 ^ szpow) then .error s!"node {blk}: data block of 2^{szpow} bytes outside the file" else
+    match decKvIndexE (slice m ka kvIndexMax) with
+    | .error (.slot .off) => .error "bad slot offset"
+    | .error (.slot .len) => .error "bad slot length"
+    | .error (.size idxsz occ) => .error s!"node {blk}: index size field {idxsz} but index occupies {occ}"
+    | .ok ki =>
+      match parseRecs m blk ka ki r.pi with
+      | .error e => .error e
+      | .ok recs => .ok { toSblkRec := r, toKvIndex := ki, blk, recs }
 
 def parseChain (m : Img) : Nat → Nat → List Sblk → Except String (List Sblk)
   | 0, blk, _ => if blk = 0 then .ok [] else .error "level-0 chain longer than the file can hold (cycle?)"
   | fuel + 1, blk, acc =>
     if blk = 0 then .ok acc.reverse
-    else do
-      let s ← parseSblk m blk
-      match s.n with
-      | nx :: _ => parseChain m fuel nx (s :: acc)
-      | [] => .error "node without links"
+    else
+      match parseSblk m blk with
+      | .error e => .error e
+      | .ok s =>
+        match s.n with
+        | nx :: _ => parseChain m fuel nx (s :: acc)
+        | [] => .error "node without links"
 
-def parseDb (m : Img) (blk : Nat) : Except String DbImg := do
+def parseDb (m : Img) (blk : Nat) : Except String DbImg :=
   let a := blk * bs
-  if !inFile m a Gen.DOFF_END then throw s!"database block {blk} outside the file"
-  if leAt m a 4 ≠ dbMagic then throw s!"database block {blk}: bad magic"
-  let n := (List.range Gen.SLEVELS).map fun i => leAt m (a + Gen.DOFF_N0_U4 + 4 * i) 4
-  let nodes ← parseChain m (m.size / Gen.SBLK_SZ + 1) (n.headD 0) []
-  return { blk, flags := byteAt m (a + Gen.DOFF_DBFLG_U1), id := leAt m (a + Gen.DOFF_DBID_U4) 4,
-           next := leAt m (a + Gen.DOFF_NEXTDB_U4) 4, p0 := leAt m (a + Gen.DOFF_P0_U4) 4, n,
-           c := (List.range Gen.SLEVELS).map fun i => leAt m (a + Gen.DOFF_C0_U4 + 4 * i) 4,
-           metaBlk := leAt m (a + Gen.DOFF_METABLK_U4) 4, metaBlkn := leAt m (a + Gen.DOFF_METABLKN_U4) 4, nodes }
+  if !inFile m a Gen.DOFF_END then .error s!"database block {blk} outside the file" else
+  match decDbHdr (slice m a Gen.DOFF_END) with
+  | none => .error s!"database block {blk}: bad magic"
+  | some h =>
+    match parseChain m (m.size / Gen.SBLK_SZ + 1) (h.n.headD 0) [] with
+    | .error e => .error e
+    | .ok nodes => .ok { toDbHdr := h, blk, nodes }
 
 def parseDbs (m : Img) : Nat → Nat → List DbImg → Except String (List DbImg)
   | 0, blk, acc => if blk = 0 then .ok acc.reverse else .error "database chain too long (cycle?)"
@@ -194,67 +166,92 @@ def followLevel (nodes : List Sblk) (i : Nat) : Nat → Nat → List Nat
 
 def rangeBlocks (off len : Nat) : List Nat := (List.range len).map (· + off)
 
+/-- some element occurs twice -/
+def hasDup : List Nat → Bool
+  | [] => false
+  | a :: as => as.contains a || hasDup as
+
+/-- slots in use, with their numbers -/
+def usedSlots (s : Sblk) : List ((Nat × Nat) × Nat) := s.slots.zipIdx.filter fun x => x.1.2 ≠ 0
+
+/-- a used slot that is not inside the data area of its block -/
+def slotOutside (s : Sblk) (x : (Nat × Nat) × Nat) : Bool :=
+  x.1.1 = 0 ∨ x.1.1 > 2 ^ s.szpow - (Gen.KVBLK_HDRSZ + s.idxsz) ∨ x.1.2 > x.1.1
+
+/-- byte intervals [start, end) of the used slots inside the block -/
+def slotIvs (s : Sblk) : List (Nat × Nat) := (usedSlots s).map fun x => (2 ^ s.szpow - x.1.1, 2 ^ s.szpow - x.1.1 + x.1.2)
+
+def overlap (a b : Nat × Nat) : Bool := a.1 < b.2 ∧ b.1 < a.2
+
 def checkSlots (s : Sblk) : Option String :=
-  let size := 2 ^ s.szpow
-  let used := (s.slots.zipIdx.filter fun ((_, len), _) => len ≠ 0)
-  let bad := used.find? fun ((off, len), _) => off = 0 ∨ off > size - (Gen.KVBLK_HDRSZ + s.idxsz) ∨ len > off
-  match bad with
+  let used := usedSlots s
+  match used.find? (slotOutside s) with
   | some ((off, len), i) => some s!"node {s.blk}: slot {i} (off {off}, len {len}) leaves the data area of its 2^{s.szpow}-byte block"
   | none =>
-    -- pairwise disjoint: sort by offset descending start = size - off
-    let ivs := used.map fun ((off, len), _) => (size - off, size - off + len)
-    let overl := ivs.zipIdx.find? fun (iv, i) => ivs.zipIdx.any fun (jv, j) => i < j ∧ iv.1 < jv.2 ∧ jv.1 < iv.2
-    match overl with
+    let ivs := slotIvs s
+    match ivs.zipIdx.find? fun x => ivs.zipIdx.any fun y => x.2 < y.2 ∧ overlap x.1 y.1 with
     | some (iv, _) => some s!"node {s.blk}: overlapping slots at {iv.1}"
     | none =>
-      if s.pi.eraseDups.length ≠ s.pi.length then some s!"node {s.blk}: a slot is referenced twice"
+      if hasDup s.pi then some s!"node {s.blk}: a slot is referenced twice"
       else if used.length ≠ s.pnum then some s!"node {s.blk}: {used.length} used slots but pnum {s.pnum}"
       else none
 
-def checkDb (d : DbImg) : List String := Id.run do
-  let mut errs : List String := []
-  let gt := KvApi.gtE d.flags
-  let nodes := d.nodes
-  -- levels
-  for i in List.range Gen.SLEVELS do
-    let want := levelChain nodes i
-    let got := followLevel nodes i (nodes.length + 2) (d.n.getD i 0)
-    if want ≠ got then errs := errs ++ [s!"db {d.id}: level {i} chain {got} but nodes of level >= {i} are {want}"]
-    let cnt := (nodes.filter (·.lvl = i)).length
-    if d.c.getD i 0 ≠ cnt then errs := errs ++ [s!"db {d.id}: counter of level {i} is {d.c.getD i 0}, nodes with that level: {cnt}"]
-  -- back links
-  let blks := nodes.map (·.blk)
-  let prevs := d.blk :: blks
-  for (s, p) in nodes.zip prevs do
-    if s.p0 ≠ p then errs := errs ++ [s!"db {d.id}: node {s.blk} back link {s.p0}, predecessor is {p}"]
-  -- tail link: the last node; an empty chain is written as 0 or as the database block itself
-  let tailOk := match blks.getLast? with
-    | some b => d.p0 = b
-    | none => d.p0 = 0 ∨ d.p0 = d.blk
-  if !tailOk then errs := errs ++ [s!"db {d.id}: tail link {d.p0}, last node is {blks.getLast?.getD 0}"]
-  -- node contents
-  let mut prevKey : Option KvApi.EKey := none
-  for s in nodes do
-    if s.pnum = 0 then errs := errs ++ [s!"db {d.id}: node {s.blk} is empty"]
-    if s.bpos = 0 ∨ s.bpos > Gen.SBLK_PAGE_SBLK_NUM_V2 then errs := errs ++ [s!"db {d.id}: node {s.blk} page slot {s.bpos}"]
-    match checkSlots s with
-    | some e => errs := errs ++ [e]
-    | none => pure ()
-    match s.recs.head? with
-    | some (k, _) =>
-      let lk := k.take Gen.PREFIX_KEY_LEN_V2
-      if s.lk ≠ lk then errs := errs ++ [s!"db {d.id}: node {s.blk} cached key is not the prefix of its first key"]
-      if (s.flags % 2 = 1) ≠ (k.length ≤ Gen.PREFIX_KEY_LEN_V2) then errs := errs ++ [s!"db {d.id}: node {s.blk} full-key flag wrong"]
-    | none => pure ()
-    for (k, _) in s.recs do
-      match ekeyOf d.flags k with
-      | none => errs := errs ++ [s!"db {d.id}: node {s.blk} holds a malformed key"]
-      | some ek =>
-        match prevKey with
-        | some pk => if !(gt pk ek) then errs := errs ++ [s!"db {d.id}: node {s.blk}: keys out of order"]
-        | none => pure ()
-        prevKey := some ek
-  return errs
+/-- links of level `i` against the level-0 chain, and the counter of level `i` -/
+def levelErrs (d : DbImg) (i : Nat) : List String :=
+  let want := levelChain d.nodes i
+  let got := followLevel d.nodes i (d.nodes.length + 2) (d.n.getD i 0)
+  let cnt := (d.nodes.filter (·.lvl = i)).length
+  (if want ≠ got then [s!"db {d.id}: level {i} chain {got} but nodes of level >= {i} are {want}"] else []) ++
+  (if d.c.getD i 0 ≠ cnt then [s!"db {d.id}: counter of level {i} is {d.c.getD i 0}, nodes with that level: {cnt}"] else [])
+
+/-- back links: every node points to its predecessor, the first one to the database block -/
+def linkErrs (d : DbImg) : List String :=
+  (d.nodes.zip (d.blk :: d.nodes.map (·.blk))).flatMap fun x =>
+    if x.1.p0 ≠ x.2 then [s!"db {d.id}: node {x.1.blk} back link {x.1.p0}, predecessor is {x.2}"] else []
+
+/-- tail link: the last node; an empty chain is written as 0 or as the database block itself -/
+def tailOk (d : DbImg) : Bool :=
+  match (d.nodes.map (·.blk)).getLast? with
+  | some b => d.p0 = b
+  | none => d.p0 = 0 ∨ d.p0 = d.blk
+
+def tailErrs (d : DbImg) : List String :=
+  if !tailOk d then [s!"db {d.id}: tail link {d.p0}, last node is {(d.nodes.map (·.blk)).getLast?.getD 0}"] else []
+
+/-- key order inside and across nodes: `prev` is the last well-formed key seen so far -/
+def keyErrs (d : DbImg) (blk : Nat) : Option KvApi.EKey → List (Bytes × Bytes) → List String × Option KvApi.EKey
+  | prev, [] => ([], prev)
+  | prev, (k, _) :: rest =>
+    match ekeyOf d.flags k with
+    | none =>
+      let r := keyErrs d blk prev rest
+      (s!"db {d.id}: node {blk} holds a malformed key" :: r.1, r.2)
+    | some ek =>
+      let e := match prev with
+        | some pk => if !(KvApi.gtE d.flags pk ek) then [s!"db {d.id}: node {blk}: keys out of order"] else []
+        | none => []
+      let r := keyErrs d blk (some ek) rest
+      (e ++ r.1, r.2)
+
+/-- errors of one node apart from the key order -/
+def nodeSelfErrs (d : DbImg) (s : Sblk) : List String :=
+  (if s.pnum = 0 then [s!"db {d.id}: node {s.blk} is empty"] else []) ++
+  (if s.bpos = 0 ∨ s.bpos > Gen.SBLK_PAGE_SBLK_NUM_V2 then [s!"db {d.id}: node {s.blk} page slot {s.bpos}"] else []) ++
+  (match checkSlots s with | some e => [e] | none => []) ++
+  (match s.recs.head? with
+   | some (k, _) =>
+     (if s.lk ≠ k.take Gen.PREFIX_KEY_LEN_V2 then [s!"db {d.id}: node {s.blk} cached key is not the prefix of its first key"] else []) ++
+     (if (s.flags % 2 = 1) ≠ (k.length ≤ Gen.PREFIX_KEY_LEN_V2) then [s!"db {d.id}: node {s.blk} full-key flag wrong"] else [])
+   | none => [])
+
+def nodeErrs (d : DbImg) : Option KvApi.EKey → List Sblk → List String
+  | _, [] => []
+  | prev, s :: rest =>
+    let r := keyErrs d s.blk prev s.recs
+    nodeSelfErrs d s ++ r.1 ++ nodeErrs d r.2 rest
+
+def checkDb (d : DbImg) : List String :=
+  (List.range Gen.SLEVELS).flatMap (levelErrs d) ++ linkErrs d ++ tailErrs d ++ nodeErrs d none d.nodes
 
 def bitSet (m : Img) (bmoff : Nat) (blk : Nat) : Bool := byteAt m (bmoff + blk / 8) / 2 ^ (blk % 8) % 2 = 1
 
@@ -272,22 +269,22 @@ def ownedBlocks (f : FileImg) : List Nat :=
 
 def checkLedger (m : Img) (f : FileImg) : List String :=
   let owned := ownedBlocks f
-  let sorted := owned.toArray.qsort (· < ·) |>.toList
-  let dup := (sorted.zip (sorted.drop 1)).find? fun (a, b) => a = b
+  let sorted := owned.mergeSort fun a b => a ≤ b
+  let dup := (sorted.zip (sorted.drop 1)).find? fun x => x.1 = x.2
   let nblocks := f.fsm.bmlen * 8
   let marked := (List.range nblocks).filter (bitSet m f.fsm.bmoff)
   let e1 := match dup with | some (a, _) => [s!"block {a} belongs to two structures"] | none => []
   let e2 := match sorted.find? (fun b => !(bitSet m f.fsm.bmoff b)) with
     | some b => [s!"block {b} is used by a structure but free in the bitmap"] | none => []
-  let ownedA := sorted.toArray
-  let e3 := match marked.find? (fun b => !(ownedA.binSearchContains b (· < ·))) with
+  let ownedS := Std.HashSet.ofList owned
+  let e3 := match marked.find? (fun b => !(ownedS.contains b)) with
     | some b => [s!"block {b} is marked allocated but belongs to no structure (leak)"] | none => []
   e1 ++ e2 ++ e3
 
 def audit (m : Img) : Except String (FileImg × List String) := do
   let f ← parse m
   let ids := f.dbs.map (·.id)
-  let e0 := if ids.eraseDups.length ≠ ids.length then ["two databases share an id"] else []
+  let e0 := if hasDup ids then ["two databases share an id"] else []
   return (f, e0 ++ f.dbs.flatMap checkDb ++ checkLedger m f)
 
 /-- contents as the `dump` op prints them -/
@@ -298,5 +295,142 @@ def dumpDb (d : DbImg) : String :=
     | none => " ?")
 
 def metaOf (m : Img) (d : DbImg) (n : Nat) : Bytes := slice m (d.metaBlk * bs) (min n (d.metaBlkn * bs))
+
+/-! ### The writer: a database image as the list of stores that put it into a file
+
+`dbWrites` lists what the C code has written when a database with these nodes is on disk: the
+database block (`_db_save`, database branch of `_sblk_sync_mm`), the metadata, and per node the
+stores of `_sblk_sync_mm`, the data-block header + index of `_kvblk_sync_mm` and one record per
+live slot at `block_end - off` (`_kvblk_addkv`). Addresses come from the image itself (`blk`, `kblk`,
+`metaBlk`, slot offsets): that is the layout. -/
+
+def shift (base : Nat) (ws : List (Nat × Bytes)) : List (Nat × Bytes) := ws.map fun w => (base + w.1, w.2)
+
+def recWrites (s : Sblk) : List (Nat × Bytes) :=
+  (s.pi.zip s.recs).map fun x => (s.kblk * bs + 2 ^ s.szpow - (s.slots.getD x.1 (0, 0)).1, encKv x.2.1 x.2.2)
+
+def nodeWrites (s : Sblk) : List (Nat × Bytes) :=
+  shift (s.blk * bs) (sblkWrites s.toSblkRec) ++ (s.kblk * bs, encKvIndex s.toKvIndex) :: recWrites s
+
+def dbWrites (d : DbImg) (mdata : Bytes) : List (Nat × Bytes) :=
+  (d.blk * bs, encDbHdr d.toDbHdr) :: (d.metaBlk * bs, mdata) :: d.nodes.flatMap nodeWrites
+
+/-- the file after the database has been written over `old` -/
+def writeDb (old : Bytes) (d : DbImg) (mdata : Bytes) : Bytes := pokes old (dbWrites d mdata)
+
+/-! ### Layout of a node: records appended to a fresh data block from the block end
+
+`_kvblk_addkv` on a block whose slots `0..j-1` are taken puts the next record into slot `j`
+(`zidx` = first free slot) at offset `maxoff + psz` from the block end, `psz` bytes long. -/
+
+def layoutOffs : Nat → List Bytes → List (Nat × Nat)
+  | _, [] => []
+  | maxoff, e :: es => (maxoff + e.length, e.length) :: layoutOffs (maxoff + e.length) es
+
+def layoutSlots (recs : List (Bytes × Bytes)) : List (Nat × Nat) :=
+  layoutOffs 0 (recs.map fun r => encKv r.1 r.2) ++ List.replicate (Gen.KVBLK_IDXNUM - recs.length) (0, 0)
+
+/-- where a node lives: block of its record, its data block (block number, size 2^szpow), page slot -/
+structure NodePlace where
+  blk : Nat
+  kblk : Nat
+  szpow : Nat
+  bpos : Nat
+deriving Repr
+
+/-- image of a node holding `recs` (stored key, value; in key order), filled in that order -/
+def mkNode (p : NodePlace) (lvl : Nat) (n : List Nat) (p0 : Nat) (recs : List (Bytes × Bytes)) : Sblk :=
+  let k0 := (recs.head?.map (·.1)).getD []
+  let lk := k0.take Gen.PREFIX_KEY_LEN_V2
+  let slots := layoutSlots recs
+  { flags := if k0.length ≤ Gen.PREFIX_KEY_LEN_V2 then Gen.SBLK_FULL_LKEY else 0, lvl, lkl := lk.length,
+    pnum := recs.length, p0, kblk := p.kblk,
+    piAll := List.range recs.length ++ List.replicate (Gen.KVBLK_IDXNUM - recs.length) 0, n, bpos := p.bpos, lk,
+    szpow := p.szpow, idxsz := (encSlots slots).length, slots, blk := p.blk, recs }
+
+/-! ### Layout of a database: a list of nodes (as in `Kv.Db`: level + records) placed in a file -/
+
+/-- a node of the key-value model with its place in the file -/
+structure PNode where
+  place : NodePlace
+  lvl : Nat
+  recs : List (Bytes × Bytes)
+deriving Repr
+
+/-- where the database block and the metadata blocks are -/
+structure DbPlace where
+  blk : Nat
+  metaBlk : Nat
+  metaBlkn : Nat
+deriving Repr
+
+/-- block of the first node of level `≥ i` among `rest`, 0 if none: the skip-list link of level `i` -/
+def nextAt (i : Nat) (rest : List PNode) : Nat := ((rest.find? (·.lvl ≥ i)).map (·.place.blk)).getD 0
+
+def mkNodes (prev : Nat) : List PNode → List Sblk
+  | [] => []
+  | x :: rest =>
+    mkNode x.place x.lvl ((List.range (x.lvl + 1)).map (nextAt · rest)) prev x.recs :: mkNodes x.place.blk rest
+
+/-- image of a database: header with head links, counters and tail link; nodes threaded by `mkNodes` -/
+def mkDb (dp : DbPlace) (flags id next : Nat) (ns : List PNode) : DbImg :=
+  { flags, id, next, p0 := (ns.getLast?.map (·.place.blk)).getD 0,
+    n := (List.range Gen.SLEVELS).map (nextAt · ns),
+    c := (List.range Gen.SLEVELS).map fun i => (ns.filter (·.lvl = i)).length,
+    metaBlk := dp.metaBlk, metaBlkn := dp.metaBlkn, blk := dp.blk, nodes := mkNodes dp.blk ns }
+
+/-- byte regions [start, end) a node occupies: its record and its data block -/
+def nodeRegions (p : NodePlace) : List (Nat × Nat) :=
+  [(p.blk * bs, p.blk * bs + Gen.SBLK_SZ), (p.kblk * bs, p.kblk * bs + 2 ^ p.szpow)]
+
+/-- all regions of a database: header, metadata, nodes -/
+def dbRegions (dp : DbPlace) (mlen : Nat) (ns : List PNode) : List (Nat × Nat) :=
+  (dp.blk * bs, dp.blk * bs + Gen.DOFF_END) :: (dp.metaBlk * bs, dp.metaBlk * bs + mlen) ::
+    ns.flatMap fun x => nodeRegions x.place
+
+/-! ### Re-encoding (`drv fmt reenc`): the encoders of Model/FormatEnc.lean against the bytes of a real file -/
+
+structure ReencCounts where
+  dbs : Nat := 0
+  nodes : Nat := 0
+  idx : Nat := 0
+  recs : Nat := 0
+deriving Repr
+
+/-- compare `want` with the `want.length` bytes of the file at `addr` -/
+def diffAt (m : Img) (what : String) (addr : Nat) (want : Bytes) : Except String Unit :=
+  let got := slice m addr want.length
+  if got = want then .ok ()
+  else
+    let i := ((want.zip got).takeWhile fun (a, b) => a = b).length
+    .error s!"{what}: byte {i} (file offset {addr + i}) encoder {want.getD i 0} file {got.getD i 0}"
+
+def reencNode (m : Img) (s : Sblk) : Except String Nat := do
+  let a := s.blk * bs
+  let e := encSblk s.toSblkRec
+  -- bytes `_sblk_sync_mm` writes: [0, n[lvl]] and [bpos, lk + lkl); the rest of the record is stale
+  let l1 := Gen.SOFF_N0_U4 + 4 * (s.lvl + 1)
+  diffAt m s!"node {s.blk} head" a (peek e 0 l1)
+  diffAt m s!"node {s.blk} bpos/lk" (a + Gen.SOFF_BPOS_U1_V2) (peek e Gen.SOFF_BPOS_U1_V2 (Gen.SOFF_LK_V2 - Gen.SOFF_BPOS_U1_V2 + s.lkl))
+  let ka := s.kblk * bs
+  diffAt m s!"node {s.blk} data block {s.kblk} index" ka (encKvIndex (KvIndex.ofSlots s.szpow s.slots))
+  if (KvIndex.ofSlots s.szpow s.slots).idxsz ≠ s.idxsz then throw s!"node {s.blk}: encoder index size"
+  for (slot, (k, v)) in s.pi.zip s.recs do
+    let (off, len) := s.slots.getD slot (0, 0)
+    let e := encKv k v
+    if e.length ≠ len then throw s!"node {s.blk} slot {slot}: encoder record length {e.length}, slot length {len}"
+    diffAt m s!"node {s.blk} slot {slot}" (ka + 2 ^ s.szpow - off) e
+  return s.recs.length
+
+def reenc (m : Img) (f : FileImg) : Except String ReencCounts := do
+  diffAt m "allocator header" 0 (encFsmHdr f.fsm)
+  let mut c : ReencCounts := {}
+  for d in f.dbs do
+    diffAt m s!"database block {d.blk}" (d.blk * bs) (encDbHdr d.toDbHdr)
+    c := { c with dbs := c.dbs + 1 }
+    for s in d.nodes do
+      let n ← reencNode m s
+      c := { c with nodes := c.nodes + 1, idx := c.idx + 1, recs := c.recs + n }
+  return c
 
 end IwModel.Format
